@@ -894,9 +894,11 @@ package ircserver
 
 // ---------------------------------------------------------------------------
 // C03: state serialization. One relation per serialized type, established by
-// Marshal (at the call of proto.Marshal) and re-established by Unmarshal on
-// the decoded snapshot; the legacy fall-backs of the reader (unset logged_in,
-// created and last_non_ping) are part of the relation.
+// Marshal (asserted where it calls proto.Marshal) and re-established by
+// Unmarshal on the decoded snapshot; the legacy fall-backs of the reader
+// (unset logged_in, created, last_non_ping) are part of the relation.
+// Clause labels name proof groups (sessin, sessrepr, nicks, services,
+// config): each group of invariants is proved inductive on its own.
 
 //@ pred tsTime(t *pb.Timestamp) = ite(t == nil || t.IsZero, zerotime(), time.Unix(0, t.UnixNano))
 //@ func timestampToTime
@@ -906,35 +908,30 @@ package ircserver
 //@   ensures result != nil && fresh(result) && result.UnixNano == t.UnixNano() && (result.IsZero <==> t.IsZero())
 //@   modifies
 
+// A session and its wire form: every field of Session that is a plain value.
 //@ pred sessRepr(p *pb.Snapshot_Session, s *Session) = p.Id.Id == s.Id.Id && p.Id.Reply == s.Id.Reply && p.Auth == s.auth && (s.loggedIn <==> (p.LoggedIn == 1 || (p.LoggedIn == 0 && p.Nick != "" && p.Username != ""))) && p.Nick == s.Nick && p.Username == s.Username && p.Realname == s.Realname && s.LastActivity == tsTime(p.LastActivity) && s.LastNonPing == ite(tsTime(p.LastNonPing).IsZero(), tsTime(p.LastActivity), tsTime(p.LastNonPing)) && s.LastSolvedCaptcha == tsTime(p.LastSolvedCaptcha) && p.Operator == s.Operator && p.AwayMsg == s.AwayMsg && s.Created == ite(p.Created > 0, p.Created, p.Id.Id) && p.ThrottlingExponent == s.throttlingExponent && p.Svid == s.svid && p.Pass == s.Pass && p.Server == s.Server && p.LastClientMessageId == s.lastClientMessageId && p.IrcPrefix.Name == s.ircPrefix.Name && p.IrcPrefix.User == s.ircPrefix.User && p.IrcPrefix.Host == s.ircPrefix.Host && p.RemoteAddr == s.RemoteAddr
-
 //@ pred snapId(p *pb.Snapshot_Session) = mk("robust.Id", p.Id.Id, p.Id.Reply)
+//@ pred modesOK(p *pb.Snapshot_Session) = allocated(p.Modes) && forall j int :: 0 <= j && j < len(p.Modes) ==> len(p.Modes[j]) > 0 && p.Modes[j][0] < 122
+//@ pred sessEntryOK(p *pb.Snapshot_Session, i *IRCServer) = modesOK(p) && p != nil && allocated(p) && p.Id != nil && p.IrcPrefix != nil && allocated(p.Id) && allocated(p.IrcPrefix) && allocated(p.LastActivity) && allocated(p.LastNonPing) && allocated(p.LastSolvedCaptcha) && snapId(p) in i.sessions && sessRepr(p, i.sessions[snapId(p)])
+
+// The network configuration inside a snapshot.
+//@ pred cfgRepr(p *pb.Snapshot_Config, c *config.Network) = p != nil && p.Irc != nil && p.Revision == c.Revision && c.SessionExpiration == parsedur(p.SessionExpiration) && c.PostMessageCooloff == parsedur(p.PostMessageCooloff) && p.TrustedBridges == c.TrustedBridges && p.CaptchaUrl == c.CaptchaURL && len(c.CaptchaHMACSecret) == hexlen(p.CaptchaHmacSecret) && (forall k int :: 0 <= k && k < len(c.CaptchaHMACSecret) ==> c.CaptchaHMACSecret[k] == hexbyte(p.CaptchaHmacSecret, k)) && p.CaptchaRequiredForLogin == c.CaptchaRequiredForLogin && p.MaxSessions == c.MaxSessions && p.MaxChannels == c.MaxChannels && (p.Banned != nil ==> c.Banned == p.Banned) && (p.Banned == nil ==> c.Banned != nil && (forall a string :: !(a in c.Banned))) && len(p.Irc.Operators) == len(c.IRC.Operators) && (forall k int :: 0 <= k && k < len(p.Irc.Operators) ==> p.Irc.Operators[k] != nil && p.Irc.Operators[k].Name == c.IRC.Operators[k].Name && p.Irc.Operators[k].Password == c.IRC.Operators[k].Password) && len(p.Irc.Services) == len(c.IRC.Services) && (forall k int :: 0 <= k && k < len(p.Irc.Services) ==> p.Irc.Services[k] != nil && p.Irc.Services[k].Password == c.IRC.Services[k].Password)
+//@ pred cfgTextOK(p *pb.Snapshot_Config) = parseok(p.SessionExpiration) && parseok(p.PostMessageCooloff) && hexok(p.CaptchaHmacSecret)
 
 // What Marshal guarantees about the shape of a snapshot (asserted there, assumed after decoding).
 //@ pred wfSnapSessions(S *pb.Snapshot) = (forall k int :: 0 <= k && k < len(S.Sessions) ==> S.Sessions[k] != nil && allocated(S.Sessions[k]) && S.Sessions[k].Id != nil && S.Sessions[k].IrcPrefix != nil && (forall j int :: 0 <= j && j < len(S.Sessions[k].Modes) ==> len(S.Sessions[k].Modes[j]) > 0 && S.Sessions[k].Modes[j][0] < 122)) && (forall a int, b int {S.Sessions[a], S.Sessions[b]} :: 0 <= a && a < b && b < len(S.Sessions) ==> snapId(S.Sessions[a]) != snapId(S.Sessions[b]))
-
-//@ func IRCServer.Unmarshal
-//@   requires fresh-server: i != nil && i.sessions != nil && i.nicks != nil && i.channels != nil && i.svsholds != nil && (forall x robust.Id :: !(x in i.sessions))
-//@   assume@after proto.Unmarshal#0 : written-by-marshal: wfSnapSessions(addrof(snapshot))
-//@   loopinv shape: i.sessions != nil && i.nicks != nil && i.channels != nil && i.svsholds != nil && wfSnapSessions(addrof(snapshot))
-// proof steps: the session just built represents its wire form; its id is new
-//@   assert@mapupdate i.sessions#0 : built: sessRepr(s, newSession)
-//@   assert@mapupdate i.sessions#0 : newid: forall k int :: 0 <= k && k <= rangeindex ==> snapId(snapshot.Sessions[k]) != snapId(s)
-//@   assert@mapupdate i.nicks#0 : stored: snapId(s) in i.sessions && i.sessions[snapId(s)] == newSession && sessRepr(s, newSession)
-//@   assert@mapupdate i.nicks#0 : kept: forall k int :: 0 <= k && k <= rangeindex ==> snapId(snapshot.Sessions[k]) in i.sessions && i.sessions[snapId(snapshot.Sessions[k])] != nil && allocated(i.sessions[snapId(snapshot.Sessions[k])]) && sessRepr(snapshot.Sessions[k], i.sessions[snapId(snapshot.Sessions[k])])
-//@   loop range snapshot.Sessions
-//@     invariant forall k int :: 0 <= k && k <= rangeindex ==> snapId(snapshot.Sessions[k]) in i.sessions && i.sessions[snapId(snapshot.Sessions[k])] != nil && allocated(i.sessions[snapId(snapshot.Sessions[k])]) && sessRepr(snapshot.Sessions[k], i.sessions[snapId(snapshot.Sessions[k])])
-//@     invariant forall x robust.Id :: x in i.sessions ==> (exists k int :: 0 <= k && k <= rangeindex && snapId(snapshot.Sessions[k]) == x)
-
-//@ pred modesOK(p *pb.Snapshot_Session) = allocated(p.Modes) && forall j int :: 0 <= j && j < len(p.Modes) ==> len(p.Modes[j]) > 0 && p.Modes[j][0] < 122
-//@ pred sessEntryOK(p *pb.Snapshot_Session, i *IRCServer) = modesOK(p) && p != nil && allocated(p) && p.Id != nil && p.IrcPrefix != nil && allocated(p.Id) && allocated(p.IrcPrefix) && allocated(p.LastActivity) && allocated(p.LastNonPing) && allocated(p.LastSolvedCaptcha) && snapId(p) in i.sessions && sessRepr(p, i.sessions[snapId(p)])
+//@ pred wfSnapTop(S *pb.Snapshot) = S.LastProcessed != nil && S.Config != nil && S.Config.Irc != nil && cfgTextOK(S.Config) && (forall k int :: 0 <= k && k < len(S.Config.Irc.Operators) ==> S.Config.Irc.Operators[k] != nil) && (forall k int :: 0 <= k && k < len(S.Config.Irc.Services) ==> S.Config.Irc.Services[k] != nil)
+// Two sessions of a snapshot never own the same nickname (wfOwner on the side of the writer).
+//@ pred wfSnapNicks(S *pb.Snapshot) = forall a int, b int {S.Sessions[a], S.Sessions[b]} :: 0 <= a && a < b && b < len(S.Sessions) && S.Sessions[a].Nick != "" && S.Sessions[b].Nick != "" ==> NickToLower(S.Sessions[a].Nick) != NickToLower(S.Sessions[b].Nick)
+// The nickname index after loading: wfNicks without the liveness part.
+//@ pred wfNicksLoaded(i *IRCServer) = forall n lcNick :: n in i.nicks ==> i.nicks[n] != nil && i.nicks[n].Id in i.sessions && i.sessions[i.nicks[n].Id] == i.nicks[n] && NickToLower(i.nicks[n].Nick) == n && i.nicks[n].Nick != ""
 
 // Marshal: every session is written exactly once, field by field. The reader's
 // legacy fall-backs are the identity on what the writer produces, given that
 // creation time and last non-ping activity of a session are set (both are set
 // from the entry's timestamp when the session is created).
 //@ func IRCServer.Marshal
-//@   requires state: i != nil && wfLocks(i) && sessShape(i) && i.channels != nil && i.svsholds != nil
+//@   requires state: i != nil && wfLocks(i) && sessShape(i) && i.channels != nil && i.svsholds != nil && i.Config.Banned != nil
 //@   requires legacy-created: forall x robust.Id :: x in i.sessions ==> i.sessions[x].Created > 0 && !i.sessions[x].LastNonPing.IsZero()
 //@   assert@call append#3 : built: callarg1[0] != nil && callarg1[0].Id != nil && callarg1[0].IrcPrefix != nil && snapId(callarg1[0]) == id && session == i.sessions[id] && sessRepr(callarg1[0], session) && modesOK(callarg1[0])
 //@   assert@call append#3 : kept: forall k int :: 0 <= k && k < len(sessions) ==> sessEntryOK(sessions[k], i) && snapId(sessions[k]) != id
@@ -991,53 +988,60 @@ package ircserver
 //@     invariant forall k int :: 0 <= k && k < len(sessions) ==> sessEntryOK(sessions[k], i)
 //@     invariant forall x robust.Id :: x in i.sessions ==> (exists k int :: 0 <= k && k < len(sessions) && snapId(sessions[k]) == x)
 //@     invariant forall a int, b int {sessions[a], sessions[b]} :: 0 <= a && a < b && b < len(sessions) ==> snapId(sessions[a]) != snapId(sessions[b])
-//@   assert@call proto.Marshal#0 : same: sameslice(snapshot.Sessions, sessions)
-//@   assert@call proto.Marshal#0 : sessions-complete: forall x robust.Id :: x in i.sessions ==> (exists k int :: 0 <= k && k < len(sessions) && snapId(sessions[k]) == x)
-//@   assert@call proto.Marshal#0 : sessions: wfSnapSessions(addrof(snapshot))
-//@   assert@call proto.Marshal#0 : sessions-repr: forall k int :: 0 <= k && k < len(sessions) ==> sessEntryOK(sessions[k], i)
-
-// The network configuration inside a snapshot.
-//@ pred cfgRepr(p *pb.Snapshot_Config, c *config.Network) = p != nil && p.Irc != nil && p.Revision == c.Revision && c.SessionExpiration == parsedur(p.SessionExpiration) && c.PostMessageCooloff == parsedur(p.PostMessageCooloff) && p.TrustedBridges == c.TrustedBridges && p.CaptchaUrl == c.CaptchaURL && len(c.CaptchaHMACSecret) == hexlen(p.CaptchaHmacSecret) && (forall k int :: 0 <= k && k < len(c.CaptchaHMACSecret) ==> c.CaptchaHMACSecret[k] == hexbyte(p.CaptchaHmacSecret, k)) && p.CaptchaRequiredForLogin == c.CaptchaRequiredForLogin && p.MaxSessions == c.MaxSessions && p.MaxChannels == c.MaxChannels && (p.Banned != nil ==> c.Banned == p.Banned) && (p.Banned == nil ==> c.Banned != nil && (forall a string :: !(a in c.Banned))) && len(p.Irc.Operators) == len(c.IRC.Operators) && (forall k int :: 0 <= k && k < len(p.Irc.Operators) ==> p.Irc.Operators[k] != nil && p.Irc.Operators[k].Name == c.IRC.Operators[k].Name && p.Irc.Operators[k].Password == c.IRC.Operators[k].Password) && len(p.Irc.Services) == len(c.IRC.Services) && (forall k int :: 0 <= k && k < len(p.Irc.Services) ==> p.Irc.Services[k] != nil && p.Irc.Services[k].Password == c.IRC.Services[k].Password)
-//@ pred cfgTextOK(p *pb.Snapshot_Config) = parseok(p.SessionExpiration) && parseok(p.PostMessageCooloff) && hexok(p.CaptchaHmacSecret)
-
-//@ func IRCServer.Marshal
-//@   requires config: i.Config.Banned != nil
-//@   assert@call proto.Marshal#0 : config: snapshot.Config == config && cfgRepr(config, addrof(i.Config)) && cfgTextOK(config)
-//@   assert@call proto.Marshal#0 : top: snapshot.LastProcessed != nil && snapshot.LastProcessed.Id == i.lastProcessed.Id && snapshot.LastProcessed.Reply == i.lastProcessed.Reply && snapshot.LastIncludedIndex == lastIncludedIndex
 //@   loop range i.Config.IRC.Operators
 //@     invariant 0 - 1 <= rangeindex && rangeindex < len(i.Config.IRC.Operators) && len(operators) == rangeindex + 1 && (forall k int :: 0 <= k && k < len(operators) ==> operators[k] != nil && allocated(operators[k]) && operators[k].Name == i.Config.IRC.Operators[k].Name && operators[k].Password == i.Config.IRC.Operators[k].Password)
 //@   loop range i.Config.IRC.Services
 //@     invariant len(operators) == len(i.Config.IRC.Operators) && (forall k int :: 0 <= k && k < len(operators) ==> operators[k] != nil && allocated(operators[k]) && operators[k].Name == i.Config.IRC.Operators[k].Name && operators[k].Password == i.Config.IRC.Operators[k].Password)
 //@     invariant 0 - 1 <= rangeindex && rangeindex < len(i.Config.IRC.Services) && len(services) == rangeindex + 1 && (forall k int :: 0 <= k && k < len(services) ==> services[k] != nil && allocated(services[k]) && services[k].Password == i.Config.IRC.Services[k].Password)
-
-//@ pred wfSnapTop(S *pb.Snapshot) = S.LastProcessed != nil && S.Config != nil && S.Config.Irc != nil && cfgTextOK(S.Config) && (forall k int :: 0 <= k && k < len(S.Config.Irc.Operators) ==> S.Config.Irc.Operators[k] != nil) && (forall k int :: 0 <= k && k < len(S.Config.Irc.Services) ==> S.Config.Irc.Services[k] != nil)
-//@ func IRCServer.Marshal
+//@   assert@call proto.Marshal#0 : same: sameslice(snapshot.Sessions, sessions)
+//@   assert@call proto.Marshal#0 : sessions-complete: forall x robust.Id :: x in i.sessions ==> (exists k int :: 0 <= k && k < len(sessions) && snapId(sessions[k]) == x)
+//@   assert@call proto.Marshal#0 : sessions: wfSnapSessions(addrof(snapshot))
+//@   assert@call proto.Marshal#0 : sessions-repr: forall k int :: 0 <= k && k < len(sessions) ==> sessEntryOK(sessions[k], i)
+//@   assert@call proto.Marshal#0 : config: snapshot.Config == config && cfgRepr(config, addrof(i.Config)) && cfgTextOK(config)
+//@   assert@call proto.Marshal#0 : top: snapshot.LastProcessed != nil && snapshot.LastProcessed.Id == i.lastProcessed.Id && snapshot.LastProcessed.Reply == i.lastProcessed.Reply && snapshot.LastIncludedIndex == lastIncludedIndex
 //@   assert@call proto.Marshal#0 : top-shape: wfSnapTop(addrof(snapshot))
-//@ func IRCServer.Unmarshal
-//@   assume@after proto.Unmarshal#0 : written-by-marshal-top: wfSnapTop(addrof(snapshot))
-//@   loopinv top: wfSnapTop(addrof(snapshot))
-//@   assert@return snapshot.LastIncludedIndex, nil#0 : config: cfgRepr(snapshot.Config, addrof(i.Config))
-//@   assert@return snapshot.LastIncludedIndex, nil#0 : top: i.lastProcessed.Id == snapshot.LastProcessed.Id && i.lastProcessed.Reply == snapshot.LastProcessed.Reply && callarg0 == snapshot.LastIncludedIndex && callarg1 == nil
-//@   loop range snapshot.Config.Irc.Operators
-//@     invariant 0 - 1 <= rangeindex && rangeindex < len(snapshot.Config.Irc.Operators) && len(operators) == len(snapshot.Config.Irc.Operators) && (forall k int :: 0 <= k && k <= rangeindex ==> operators[k].Name == snapshot.Config.Irc.Operators[k].Name && operators[k].Password == snapshot.Config.Irc.Operators[k].Password)
-//@   loop range snapshot.Config.Irc.Services
-//@     invariant len(operators) == len(snapshot.Config.Irc.Operators) && (forall k int :: 0 <= k && k < len(operators) ==> operators[k].Name == snapshot.Config.Irc.Operators[k].Name && operators[k].Password == snapshot.Config.Irc.Operators[k].Password)
-//@     invariant 0 - 1 <= rangeindex && rangeindex < len(snapshot.Config.Irc.Services) && len(services) == len(snapshot.Config.Irc.Services) && (forall k int :: 0 <= k && k <= rangeindex ==> services[k].Password == snapshot.Config.Irc.Services[k].Password)
 
-// The nickname index is rebuilt, not stored: after loading, a nickname maps
-// to the session that owns it, and only sessions that have a nickname are
-// indexed (wfNicks, the invariant every command handler relies on). Two
-// sessions of a snapshot never own the same nickname (wfOwner on the side of
-// the writer).
-//@ pred wfSnapNicks(S *pb.Snapshot) = forall a int, b int {S.Sessions[a], S.Sessions[b]} :: 0 <= a && a < b && b < len(S.Sessions) && S.Sessions[a].Nick != "" && S.Sessions[b].Nick != "" ==> NickToLower(S.Sessions[a].Nick) != NickToLower(S.Sessions[b].Nick)
+// Unmarshal into a fresh server. The three error returns for unparsable
+// durations and key are unreachable for a snapshot written by Marshal.
 //@ func IRCServer.Unmarshal
-//@   requires fresh-index: (forall n lcNick :: !(n in i.nicks)) && len(i.serverSessions) == 0
-//@   assume@after proto.Unmarshal#0 : written-by-marshal-nicks: wfSnapNicks(addrof(snapshot))
-//@   loopinv snapnicks: wfSnapNicks(addrof(snapshot))
-//@   assert@return snapshot.LastIncludedIndex, nil#0 : nicks: wfNicksLoaded(i)
-//@   assert@return snapshot.LastIncludedIndex, nil#0 : owner: forall x robust.Id :: x in i.sessions && i.sessions[x].Nick != "" ==> NickToLower(i.sessions[x].Nick) in i.nicks && i.nicks[NickToLower(i.sessions[x].Nick)] == i.sessions[x]
+//@   opt dead = return#3 return#4 return#5
+//@   opt sidx0 = true
+//@   requires fresh-server: i != nil && i.sessions != nil && i.nicks != nil && i.channels != nil && i.svsholds != nil && (forall x robust.Id :: !(x in i.sessions)) && (forall n lcNick :: !(n in i.nicks)) && len(i.serverSessions) == 0
+//@   assume@after proto.Unmarshal#0 : written-by-marshal: wfSnapSessions(addrof(snapshot)) && wfSnapTop(addrof(snapshot)) && wfSnapNicks(addrof(snapshot))
+//@   loopinv i.sessions != nil && i.nicks != nil && i.channels != nil && i.svsholds != nil && wfSnapSessions(addrof(snapshot)) && wfSnapTop(addrof(snapshot)) && wfSnapNicks(addrof(snapshot))
+// group sessin: the decoded sessions are exactly the sessions of the server, each under its own id
+//@   assert@mapupdate i.sessions#0 : sessin-newid: forall k int :: 0 <= k && k <= rangeindex ==> snapId(snapshot.Sessions[k]) != snapId(s)
+//@   assert@mapupdate i.sessions#0 : sessin-id: newSession.Id == snapId(s) && newSession != nil
+// group sessrepr: field by field
+//@   assert@mapupdate i.sessions#0 : sessrepr-built: sessRepr(s, newSession)
 //@   loop range snapshot.Sessions
+//@     invariant sessin-bound: 0 - 1 <= rangeindex && rangeindex < len(snapshot.Sessions)
+//@     invariant sessin: forall k int :: 0 <= k && k <= rangeindex ==> snapId(snapshot.Sessions[k]) in i.sessions && i.sessions[snapId(snapshot.Sessions[k])] != nil && allocated(i.sessions[snapId(snapshot.Sessions[k])]) && i.sessions[snapId(snapshot.Sessions[k])].Id == snapId(snapshot.Sessions[k]) && i.sessions[snapId(snapshot.Sessions[k])].Nick == snapshot.Sessions[k].Nick && (i.sessions[snapId(snapshot.Sessions[k])].Server <==> snapshot.Sessions[k].Server)
+//@     invariant sessin-only: forall x robust.Id :: x in i.sessions ==> (exists k int :: 0 <= k && k <= rangeindex && snapId(snapshot.Sessions[k]) == x)
+//@     invariant sessrepr: forall k int :: 0 <= k && k <= rangeindex ==> sessRepr(snapshot.Sessions[k], i.sessions[snapId(snapshot.Sessions[k])])
+// group nicks: the nickname index is rebuilt, not stored
 //@     invariant nicks: wfNicksLoaded(i)
-//@     invariant owner: forall k int :: 0 <= k && k <= rangeindex && snapshot.Sessions[k].Nick != "" ==> NickToLower(snapshot.Sessions[k].Nick) in i.nicks && i.nicks[NickToLower(snapshot.Sessions[k].Nick)] == i.sessions[snapId(snapshot.Sessions[k])]
-//@     invariant back: forall n lcNick :: n in i.nicks ==> (exists k int :: 0 <= k && k <= rangeindex && snapshot.Sessions[k].Nick != "" && NickToLower(snapshot.Sessions[k].Nick) == n)
-//@ pred wfNicksLoaded(i *IRCServer) = forall n lcNick :: n in i.nicks ==> i.nicks[n] != nil && i.nicks[n].Id in i.sessions && i.sessions[i.nicks[n].Id] == i.nicks[n] && NickToLower(i.nicks[n].Nick) == n && i.nicks[n].Nick != ""
+//@     invariant nicks-owner: forall k int :: 0 <= k && k <= rangeindex && snapshot.Sessions[k].Nick != "" ==> NickToLower(snapshot.Sessions[k].Nick) in i.nicks && i.nicks[NickToLower(snapshot.Sessions[k].Nick)] == i.sessions[snapId(snapshot.Sessions[k])]
+//@     invariant nicks-back: forall n lcNick :: n in i.nicks ==> (exists k int :: 0 <= k && k <= rangeindex && snapshot.Sessions[k].Nick != "" && NickToLower(snapshot.Sessions[k].Nick) == n)
+// group services: so is the list of services links
+//@     invariant services-alloc: allocated(i.serverSessions)
+//@     invariant services: forall k int :: 0 <= k && k <= rangeindex && snapshot.Sessions[k].Server ==> (exists j int :: 0 <= j && j < len(i.serverSessions) && i.serverSessions[j] == snapshot.Sessions[k].Id.Id)
+//@     invariant services-only: forall j int :: 0 <= j && j < len(i.serverSessions) ==> (exists k int :: 0 <= k && k <= rangeindex && snapshot.Sessions[k].Server && snapshot.Sessions[k].Id.Id == i.serverSessions[j])
+//@   assert@store i.serverSessions#0 : services-new: len(callarg0) == len(i.serverSessions) + 1 && callarg0[len(i.serverSessions)] == s.Id.Id && s.Server && s == snapshot.Sessions[rangeindex+1]
+//@   assert@store i.serverSessions#0 : services-kept: forall k int :: 0 <= k && k <= rangeindex && snapshot.Sessions[k].Server ==> (exists j int :: 0 <= j && j < len(callarg0) && callarg0[j] == snapshot.Sessions[k].Id.Id)
+//@   assert@if newSession.Nick != ""#0 : services-merged: forall k int :: 0 <= k && k <= rangeindex + 1 && snapshot.Sessions[k].Server ==> (exists j int :: 0 <= j && j < len(i.serverSessions) && i.serverSessions[j] == snapshot.Sessions[k].Id.Id)
+// group config
+//@   loop range snapshot.Config.Irc.Operators
+//@     invariant config-ops: 0 - 1 <= rangeindex && rangeindex < len(snapshot.Config.Irc.Operators) && len(operators) == len(snapshot.Config.Irc.Operators) && (forall k int :: 0 <= k && k <= rangeindex ==> operators[k].Name == snapshot.Config.Irc.Operators[k].Name && operators[k].Password == snapshot.Config.Irc.Operators[k].Password)
+//@   loop range snapshot.Config.Irc.Services
+//@     invariant config-ops: len(operators) == len(snapshot.Config.Irc.Operators) && (forall k int :: 0 <= k && k < len(operators) ==> operators[k].Name == snapshot.Config.Irc.Operators[k].Name && operators[k].Password == snapshot.Config.Irc.Operators[k].Password)
+//@     invariant config-svc: 0 - 1 <= rangeindex && rangeindex < len(snapshot.Config.Irc.Services) && len(services) == len(snapshot.Config.Irc.Services) && (forall k int :: 0 <= k && k <= rangeindex ==> services[k].Password == snapshot.Config.Irc.Services[k].Password)
+// what the caller gets (asserted at the successful return)
+//@   assert@return snapshot.LastIncludedIndex, nil#0 : sessin: forall k int :: 0 <= k && k < len(snapshot.Sessions) ==> snapId(snapshot.Sessions[k]) in i.sessions
+//@   assert@return snapshot.LastIncludedIndex, nil#0 : sessin-only: forall x robust.Id :: x in i.sessions ==> (exists k int :: 0 <= k && k < len(snapshot.Sessions) && snapId(snapshot.Sessions[k]) == x)
+//@   assert@return snapshot.LastIncludedIndex, nil#0 : sessrepr: forall k int :: 0 <= k && k < len(snapshot.Sessions) ==> sessRepr(snapshot.Sessions[k], i.sessions[snapId(snapshot.Sessions[k])])
+//@   assert@return snapshot.LastIncludedIndex, nil#0 : nicks: wfNicksLoaded(i)
+//@   assert@return snapshot.LastIncludedIndex, nil#0 : nicks-owner: forall x robust.Id :: x in i.sessions && i.sessions[x].Nick != "" ==> NickToLower(i.sessions[x].Nick) in i.nicks && i.nicks[NickToLower(i.sessions[x].Nick)] == i.sessions[x]
+//@   assert@return snapshot.LastIncludedIndex, nil#0 : services: forall x robust.Id :: x in i.sessions && i.sessions[x].Server ==> (exists j int :: 0 <= j && j < len(i.serverSessions) && i.serverSessions[j] == x.Id)
+//@   assert@return snapshot.LastIncludedIndex, nil#0 : config: cfgRepr(snapshot.Config, addrof(i.Config))
+//@   assert@return snapshot.LastIncludedIndex, nil#0 : config-top: i.lastProcessed.Id == snapshot.LastProcessed.Id && i.lastProcessed.Reply == snapshot.LastProcessed.Reply && callarg0 == snapshot.LastIncludedIndex && callarg1 == nil
